@@ -138,7 +138,29 @@ impl ZReorderMap {
         };
 
         map.rewind()?;
+        map.validate_entries()?;
         Ok(map)
+    }
+
+    /// Walks the RLE entries once and checks that they cover the `size` elements announced by
+    /// the header and that no sequence is empty.  The iterator cannot report an error, so a
+    /// file that was cut short (or never finished) has to be refused here; otherwise iteration
+    /// would silently stop early, or underflow `seq_length` on a zero-length sequence.
+    /// Leaves the map rewound to the first element.
+    fn validate_entries(&mut self) -> Result<()> {
+        let mut covered: usize = 0;
+        while covered < self.size {
+            if covered > 0 {
+                self.read_entry()?;
+            }
+            if self.seq_length == 0 {
+                return Err(ZiporaError::invalid_data(
+                    "ZReorderMap: zero-length sequence"
+                ));
+            }
+            covered = covered.saturating_add(self.seq_length);
+        }
+        self.rewind()
     }
 
     /// Checks if the iterator has reached the end.
